@@ -486,6 +486,27 @@ func (c *Ctx) checkAsyncCtx(typ string) {
 				c.violated("C14.async-r", consR, e.Pos, "result/err is read before (or without) receiving from wait: the caller can observe a half-written result", c.witness(t, i)...)
 			}
 		}
+		// the only other way out is the caller's own context: a case on any other channel (a runner's stop channel)
+		// races with <-wait once the lane has finished its backlog, so a call that was accepted and executed is
+		// reported as failed at random. (ProcChan's own context type has had its stop case from the start: the
+		// stop/accept race of ProcChan is not part of what is decided.)
+		if !waited && typ != "procChanCtxT" {
+			for i, e := range t.Events {
+				if e.Kind != EvSelect || e.Addr == nil || e.Case < 0 {
+					continue
+				}
+				isDone := false
+				for _, y := range t.Events[:i] {
+					if y.Kind == EvCall && y.Res != nil && y.Res.Key() == e.Addr.Key() && y.Method != nil && y.Method.Name() == "Done" {
+						isDone = true
+					}
+				}
+				if !isDone && ok {
+					ok = false
+					c.violated("C14.async-r", consR, e.Pos, "r() also gives up on a channel that is neither the call's wait channel nor its context ("+c.short(e.Addr.Key())+"): when that channel and wait are both ready the caller may get an error for a call that was accepted and executed", c.witness(t, i)...)
+				}
+			}
+		}
 		if waited {
 			good := len(t.Ret) == 2
 			if good {
